@@ -260,7 +260,7 @@ def check_hexsrec(ck, drv, r, quick, corr):
                     kinds = set(x["code"] for x in recs) if f == "hex" else set()
                     sig = "C14:hex:address-composition:mixed-02-04" if {2, 4} <= kinds else "C14:%s:address-composition" % f
                     flagged = ck.report(sig, "%s data records are placed at %r, the format says %r" % (f.upper(), [a for a, _ in real["ok"]["decode"]][:6], [a for a, _ in exp_addr][:6]), "oracle",
-                                        "Amoco.Fmt.Props.hex_address_composition_partial", case={"data": data.hex()}, real=real["ok"]["decode"],
+                                        "Amoco.Fmt.Props.hex_address_composition", case={"data": data.hex()}, real=real["ok"]["decode"],
                                         model=mod.get("ok", {}).get("decode") if isinstance(mod, dict) else None, expected=exp_addr) or True
         elif any(v[0] == "cksum" for v in verd) and all(v[0] in ("ok", "cksum") for v in verd):
             errname = "HEXError" if f == "hex" else "SRECError"
@@ -507,7 +507,7 @@ def check_elf(ck, drv, r, quick, env, corr):
             eh = t["ehdr"]
             inb = (not eh["e_phoff"] or eh["e_phoff"] + eh["e_phnum"] * eh["e_phentsize"] <= len(data)) and \
                   (not eh["e_shoff"] or eh["e_shoff"] + eh["e_shnum"] * eh["e_shentsize"] <= len(data))
-            known = all(p["p_type"] in env["pt"] for p in ref["phdr"])
+            known = True       # program headers of unknown type are kept since the repair (keepPhdr = true)
             named = 0 < eh["e_shstrndx"] < len(ref["shdr"]) and ref["shdr"][eh["e_shstrndx"]]["sh_type"] == 3
             if inb and known and named:
                 ck.count("E.ElfWF-instances")
